@@ -37,6 +37,12 @@ type Convergen interface {
 	// :map Title() Title
 	// :skip Home.Zip
 	Paths(*Src) *Dst
+	// ArgMapPtr: a pointer-typed source leaf mapped explicitly into a destination that already
+	// holds a value (arg style): a nil source pointer must overwrite it like any other value.
+	// :style arg
+	// :map Geo Home.Geo
+	// :map Work.City Keep
+	ArgMapPtr(*Src) *Dst
 	// ViaPtr: explicit source paths through pointers that may be nil.
 	// :map Work.City Name
 	// :conv Upper Work.City Code
